@@ -142,6 +142,17 @@ EXTENSIONS = {
          "seeded schedules replayed on the real RefreshWorker and Pool with trace validation at quiescent points, and per-line "
          "validation of the requests through the real handler.  Three findings recorded in known_findings.json (Put / Close race "
          "panic, ErrClosed hidden in an errors.Pair, Shutdown does not join the loop)",
+ "EXT8": "ConfigFlow.tla / TraceConfigFlow.tla (+ well-formedness run, 7 defective variants) -- the configuration data flow: for "
+         "every leaf of the configuration file and the environment, the component-configuration fields it must reach and the "
+         "transformation (identity after unit conversion, gated by its own switch, enumeration map, documented zeros), written "
+         "from doc/configuration.md, doc/environment.md and the field comments; invariants Reaches, NoCrossTalk, GatedByOwnFlag, "
+         "PartitionExact, OrderPreserved, ZeroIsMeaningful over an abstract run with six defect classes.  Bound by differential "
+         "taint on the real glue: a build-time overlay captures the configuration handed to 33 constructors; the harness "
+         "carries config.dist.yaml through parseConfig, validate, toInternal and the builder steps of cmd.Main that bind no "
+         "socket (incl. dnssvc.NewHandlers / New / NewListener) in a loop-back laboratory, varies one leaf, one list or one "
+         "switch with a sibling per run (~490 runs), and TraceConfigFlow judges every line and the base run.  Findings recorded "
+         "in known_findings.json: ratelimit.refuseany is never read (the code reads refuse_any), "
+         "filters.rule_list_refresh_timeout is unused, backend.timeout 0s expires immediately instead of disabling the time-out",
 }
 
 
